@@ -23,4 +23,27 @@ CLAIMS = {
         "note": PARTIAL + TRUST,
         "technique": "sibling-completeness of trait impl override sets + MIR dominance + THIR match tables",
     },
+    "C23": {
+        "text": "Every method of the recording wrapper (RustIrDatabase and UnificationDatabase impls) that takes or returns an item id "
+                "records it on every path (MIR dominance), the stub collector visits every datum kind the writer prints through the "
+                "same getters, and the id collector covers every id-carrying TyKind/WhereClause variant without cutting traversal. "
+                "Whether stubs suffice to reproduce answers is not decided.",
+        "note": PARTIAL + TRUST + " Exceptions table in rules/props/c23.py (name getters, coherence-only getter, coroutine arm).",
+        "technique": "wrapper-discipline sibling check over trait impl methods + MIR must-pass-through + THIR match tables",
+    },
+    "C22": {
+        "text": "Writer and parser agree on their tables: WellKnownTrait<->#[lang] names are inverse bijections, every attribute the "
+                "grammar accepts on an item kind is emitted by that item's writer, every datum field is read by its writer, every "
+                "emitted keyword is a grammar terminal. Round-trip equality of programs is not decided.",
+        "note": PARTIAL + TRUST + " The grammar file is tokenized lexically (rules/grammar.py).",
+        "technique": "cross-check of THIR match tables / string literals of the writer against the tokenized LALRPOP grammar",
+    },
+    "C08": {
+        "text": "The TyKind -> outcome-class tables of the Sized/Copy/Clone/Tuple/FnPtr clause generators, extracted from THIR pattern "
+                "matrices for all 23 TyKind variants x variable kinds, equal a spec table written from the Rust reference; helper "
+                "functions pick the components the rules name (last field, last/all tuple elements, array element, upvars). This "
+                "decides the clause-generation half of the property for every type; solving those clauses is C01.",
+        "note": TRUST + " The spec tables in rules/props/c08.py are trusted.",
+        "technique": "exhaustive pattern-matrix table extraction (THIR) compared with a spec table",
+    },
 }
